@@ -163,8 +163,12 @@ def _file_case(case: Dict[str, Any]) -> Tuple[Dict[str, Any], List[List[int]]]:
         while len(events) < want:
             events.append({"ph": "M", "name": "thread_name", "pid": PID, "tid": TID, "args": {"name": "thread"}})
         pos_of[i] = len(events)
+        args: Dict[str, Any] = {"External id": len(events)}
+        if case.get("hex_streams") and len(events) % 3 != 1:
+            # ROCm traces carry the stream handle of host runtime calls as a hex string; such a value is not a stream number
+            args["stream"] = case["hex_streams"][len(events) % len(case["hex_streams"])]
         events.append({"ph": "X", "cat": "cpu_op", "name": f"aten::op{len(events) % 5}", "pid": PID, "tid": TID, "ts": ts,
-                       "dur": d, "args": {"External id": len(events)}})
+                       "dur": d, "args": args})
     new_spans = [[pos_of[i], ts, d] for i, ts, d in spans]
     # events of another host thread and GPU kernels that start/end exactly at instants of the family: the call stack of
     # a thread must not depend on what other threads or streams do
@@ -247,7 +251,8 @@ def check_file(case: Dict[str, Any]) -> CaseInfo:
     nt = any(k in kinds for k in ("shared_start", "shared_end", "identical", "touching", "zero_at_touching_boundary",
                                   "zero_at_end", "zero_at_start"))
     return CaseInfo(nontrivial=nt, classes=list(kinds) + ["via_file"] + (["other_thread_or_stream_events"] if case.get("others") else [])
-                    + (["two_ranks_one_call_graph"] if case.get("rank1") else []))
+                    + (["two_ranks_one_call_graph"] if case.get("rank1") else [])
+                    + (["host_events_with_hex_string_stream_arg"] if case.get("hex_streams") else []))
 
 
 @st.composite
@@ -256,6 +261,8 @@ def family_with_other_threads(draw):
     instants = sorted({ts for _, ts, _ in case["spans"]} | {ts + d for _, ts, d in case["spans"]})
     n = draw(st.sampled_from([0, 2, 3, 5]))
     case["others"] = [[draw(st.sampled_from(instants)), draw(st.sampled_from(instants + [instants[0] - 1, instants[-1] + 2]))] for _ in range(n)]
+    if draw(st.sampled_from([True, False, False, False])):
+        case["hex_streams"] = draw(st.sampled_from([["0x0"], ["0x55d0c8a3b2f0"], ["0x0", "0x7f00"]]))
     if draw(st.sampled_from([True, False, False])):
         case["rank1"] = draw(span_family(max_events=10))  # a second rank with its own family: one CallGraph over both ranks
     return case
@@ -274,5 +281,5 @@ def campaigns(tier: str) -> List[Campaign]:
         Campaign("direct", span_family(), check_direct, quick=3200, thorough=320000, quick_shards=8, fuzz_runs=80000,
                  required_classes=REQ, sample_view=view),
         Campaign("via_file", family_with_other_threads(), check_file, quick=320, thorough=16000, quick_shards=8,
-                 required_classes={"touching": 0.1, "other_thread_or_stream_events": 0.3, "two_ranks_one_call_graph": 0.15}, sample_view=view),
+                 required_classes={"touching": 0.1, "other_thread_or_stream_events": 0.3, "two_ranks_one_call_graph": 0.15, "host_events_with_hex_string_stream_arg": 0.1}, sample_view=view),
     ]
